@@ -206,6 +206,9 @@ func c09Quote(w *harness.W, s string) {
 	cx.Flush(key)
 }
 
+// c09UniSyms: operators mixed with literal symbols outside ASCII.
+var c09UniSyms = []string{"a", ".", "*", "(", ")", "|", `\`, "é", "\uFFFD", "\u212A", "\xff", "\x00"}
+
 // limit families: every parameter value
 type c09Family struct {
 	name string
@@ -233,6 +236,11 @@ func c09Families(thorough bool) []c09Family {
 		{"repeat", rep, func(n int) string { return fmt.Sprintf("a{%d}", n) }},
 		{"repeat-range", rep, func(n int) string { return fmt.Sprintf("a{%d,%d}", n/2, n) }},
 		{"repeat-open", rep, func(n int) string { return fmt.Sprintf("a{%d,}", n) }},
+		// the widest ranges the parser accepts (n - m up to 1000), bare, inside groups and next to other atoms
+		{"repeat-range-from0", rep, func(n int) string { return fmt.Sprintf("a{0,%d}", n) }},
+		{"repeat-range-from1-group", rep, func(n int) string { return fmt.Sprintf("x(a{1,%d})y", n) }},
+		{"repeat-range-from0-nested", rep, func(n int) string { return fmt.Sprintf("((a{0,%d}))b", n) }},
+		{"repeat-range-class-named", rep, func(n int) string { return fmt.Sprintf("^(?P<key>[a-z]{1,%d})=(?P<val>.*)$", n) }},
 		{"repeat-nested", nest2, func(n int) string { return fmt.Sprintf("(?:a{%d}){%d}", n, n) }},
 		{"repeat-nested3", nest3, func(n int) string { return fmt.Sprintf("(?:(?:a{%d}){%d}){%d}", n, n, n) }},
 		{"repeat-class", repc, func(n int) string { return fmt.Sprintf(`\pL{%d}`, n) }},
@@ -289,6 +297,14 @@ func C09Plan(tier string) *harness.Plan {
 		}
 		return n
 	}
+	// literal symbols outside ASCII: a 2-byte rune, U+FFFD itself, KELVIN SIGN, an ill-formed byte and NUL, mixed with
+	// the basic operators (metadata such as LiteralPrefix and String depend on how literal runes are decoded)
+	lU := 4
+	if thorough {
+		lU = 5
+	}
+	nU := count(len(c09UniSyms), lU)
+	bU := (nU + 2047) / 2048
 	n20, n28 := count(20, l20), count(28, l28)
 	nQ := count(len(c09QuoteSyms), 3)
 	fams := c09Families(thorough)
@@ -337,8 +353,10 @@ func C09Plan(tier string) *harness.Plan {
 			doStrings(c09Syms, n20, u)
 		case u < b20+b28:
 			doStrings(syms28, n28, u-b20)
-		case u < b20+b28+bQ:
-			b := u - b20 - b28
+		case u < b20+b28+bU:
+			doStrings(c09UniSyms, nU, u-b20-b28)
+		case u < b20+b28+bU+bQ:
+			b := u - b20 - b28 - bU
 			lo, hi := b*blk, (b+1)*blk
 			if hi > nQ {
 				hi = nQ
@@ -350,7 +368,7 @@ func C09Plan(tier string) *harness.Plan {
 			w.C["distinct_nontrivial"] += int64(hi - lo)
 			w.C["traces_validated_against_impl"] += int64(hi - lo)
 		default:
-			b := u - b20 - b28 - bQ
+			b := u - b20 - b28 - bU - bQ
 			lo, hi := b*64, (b+1)*64
 			i := 0
 			for _, f := range fams {
@@ -370,7 +388,7 @@ func C09Plan(tier string) *harness.Plan {
 		w.C["transitions"] += w.C["evaluations"] - e0
 	}
 	return &harness.Plan{
-		Units: b20 + b28 + bQ + bF, Chunk: 1, Run: run,
+		Units: b20 + b28 + bU + bQ + bF, Chunk: 1, Run: run,
 		Describe: func(u int) string { return fmt.Sprintf("string block %d", u) },
 		Replay: func(w *harness.W, c *harness.Case) {
 			if c.Mode == "quotemeta" {
@@ -379,9 +397,9 @@ func C09Plan(tier string) *harness.Plan {
 				c09One(w, c.Pattern)
 			}
 		},
-		Rule:  "Every string of at most L symbols over the 20-symbol pattern alphabet (and over 28 symbols including multi-character escapes at L-1) through Compile, CompilePOSIX, MustCompile, MustCompilePOSIX (acceptance and exact error/panic text vs package regexp); for accepted strings String, NumSubexp, SubexpNames, SubexpIndex (every name + absent names), LiteralPrefix, MarshalText/UnmarshalText and Copy (behaviour compared on 13 haystacks); QuoteMeta on every string of at most 3 symbols over the 14 metacharacters + {a, é, 0xFF} with the round trip Compile(QuoteMeta(s)); limit families (nesting, repetition, alternation width, class ranges, group counts) at every parameter value up to the stated maxima. states = candidate strings; transitions = API comparisons; non-trivial = std accepts the string.",
+		Rule:  "Every string of at most L symbols over the 20-symbol pattern alphabet (and over 28 symbols including multi-character escapes at L-1, and over 12 symbols mixing operators with non-ASCII literal symbols — é, U+FFFD, KELVIN SIGN, an ill-formed byte, NUL) through Compile, CompilePOSIX, MustCompile, MustCompilePOSIX (acceptance and exact error/panic text vs package regexp); for accepted strings String, NumSubexp, SubexpNames, SubexpIndex (every name + absent names), LiteralPrefix, MarshalText/UnmarshalText and Copy (behaviour compared on 13 haystacks); QuoteMeta on every string of at most 3 symbols over the 14 metacharacters + {a, é, 0xFF} with the round trip Compile(QuoteMeta(s)); limit families (nesting, repetition, alternation width, class ranges, group counts) at every parameter value up to the stated maxima. states = candidate strings; transitions = API comparisons; non-trivial = std accepts the string.",
 		Level: "model_checking", Budget: budget, UnitTimeout: 300 * time.Second,
-		Bounds: map[string]any{"len_20_symbols": l20, "len_28_symbols": l28, "strings": n20 + n28, "quotemeta_strings": nQ, "family_cases": nF},
+		Bounds: map[string]any{"len_20_symbols": l20, "len_28_symbols": l28, "strings": n20 + n28 + nU, "len_non_ascii_literal_symbols": lU, "quotemeta_strings": nQ, "family_cases": nF},
 		Assume: []string{"oracle: package regexp of the repository's toolchain", "only strings within the stated alphabets/lengths and the listed limit families", "known findings matched by exact case hash"},
 	}
 }
